@@ -488,6 +488,7 @@
 		cmp	ebx, FLAGS_CPUID7_EBX_AVX512_G1
 		lea	mbin_rbx, [%6 WRT_OPT] ; AVX512/06 opt
 		cmove	mbin_rsi, mbin_rbx
+		jne	_%1_init_done	  ; AVX512 group 1 incomplete: the AVX512+SHANI version needs it too
 
 		;; Test for SHANI
 		xor	ecx, ecx
